@@ -211,9 +211,9 @@ func c07Codec(c *Ctx) {
 	type level struct {
 		name     string
 		typ      types.Type
-		mapVar   string   // package var with handler map
-		fn       string   // function comparing the key
-		keyVar   string   // name of the key variable/param in fn
+		mapVar   string // package var with handler map
+		fn       string // function comparing the key
+		keyVar   string // name of the key variable/param in fn
 		keyLocal bool
 	}
 	levels := []level{
@@ -289,11 +289,11 @@ func c07Codec(c *Ctx) {
 
 	// decodeLogEntry dispatches "Result" to decodeResult, which dispatches to resultDecHandler and resultHandlers
 	for fnk, must := range map[string][]string{
-		"(*querylog.queryLog).decodeLogEntry":                {"(*querylog.queryLog).decodeResult"},
-		"(*querylog.queryLog).decodeResult":                  {"(*querylog.queryLog).resultDecHandler"},
-		"(*querylog.queryLog).resultDecHandler":              {"(*querylog.queryLog).decodeResultRules", "(*querylog.queryLog).decodeResultDNSRewriteResult", "(*querylog.queryLog).decodeResultIPList"},
-		"(*querylog.queryLog).decodeResultRuleToken":         {"(*querylog.queryLog).decodeResultRuleKey"},
-		"(*querylog.queryLog).decodeResultDNSRewriteResult":  {"(*querylog.queryLog).decodeResultDNSRewriteResultKey"},
+		"(*querylog.queryLog).decodeLogEntry":               {"(*querylog.queryLog).decodeResult"},
+		"(*querylog.queryLog).decodeResult":                 {"(*querylog.queryLog).resultDecHandler"},
+		"(*querylog.queryLog).resultDecHandler":             {"(*querylog.queryLog).decodeResultRules", "(*querylog.queryLog).decodeResultDNSRewriteResult", "(*querylog.queryLog).decodeResultIPList"},
+		"(*querylog.queryLog).decodeResultRuleToken":        {"(*querylog.queryLog).decodeResultRuleKey"},
+		"(*querylog.queryLog).decodeResultDNSRewriteResult": {"(*querylog.queryLog).decodeResultDNSRewriteResultKey"},
 	} {
 		fn := p.Fn(fnk)
 		if fn == nil {
